@@ -357,6 +357,10 @@ static void check_sym(const Mat &M, const std::vector<std::vector<long>> &rhs, b
             else { L[(size_t)(i * n + i)] = 1; D[(size_t)i] = v; }
         }
     }
+    // the factor lives in the lower triangle (and the diagonal); the strict upper triangle still holds entries of the input and is not
+    // part of the result.  From here on it holds NaN: every routine that takes the factor (extractors, substitutions, solve, both
+    // inverses, determinants) must work from the lower triangle alone, as it must for a lower-triangular L built by the caller
+    for (int i = 0; i < n; ++i) { for (int j = i + 1; j < n; ++j) { A.p()[i * n + j] = (a_real)NAN; } }
     for (int i = 0; i < n; ++i)
     {
         for (int j = 0; j < n; ++j)
